@@ -47,7 +47,17 @@ func (f *Field) resolve(file *File) error {
 }
 
 func (f *Field) resolved() error {
-	ref := f.Type.Ref
+	t := f.Type
+	if t.Kind == KindList {
+		t = t.Element
+
+		switch t.Kind {
+		case KindAny, KindAnyMessage:
+			return fmt.Errorf("invalid field %q: lists of %v are not supported", f.Name, t.Kind)
+		}
+	}
+
+	ref := t.Ref
 	if ref == nil {
 		return nil
 	}
